@@ -170,6 +170,12 @@ func (in *Interp) evalStmt(s Stmt, c *Ctx, labels []string) Completion {
 			}
 		}
 	case *ForIn: // 12.6.4
+		if s.Var != "" && s.VarInit != nil && in.Flags&AltForInInitPerIteration == 0 {
+			// second production, step 1: the VariableDeclarationNoIn (with its
+			// initialiser) is evaluated once, before the object expression
+			lhs := GetIdentifierReference(in, c.Lex, s.Var)
+			in.PutValue(lhs, in.GetValue(in.evalExpr(s.VarInit, c)))
+		}
 		ev := in.GetValue(in.evalExpr(s.Obj, c))
 		if IsUndef(ev) || IsNull(ev) {
 			return normalEmpty
@@ -184,6 +190,9 @@ func (in *Interp) evalStmt(s Stmt, c *Ctx, labels []string) Completion {
 			var lhs interface{}
 			if s.Var != "" {
 				lhs = GetIdentifierReference(in, c.Lex, s.Var)
+				if s.VarInit != nil && in.Flags&AltForInInitPerIteration != 0 {
+					in.PutValue(lhs, in.GetValue(in.evalExpr(s.VarInit, c)))
+				}
 			} else {
 				lhs = in.evalExpr(s.LHS, c)
 			}
@@ -318,16 +327,22 @@ func (in *Interp) protect(f func() Completion) (comp Completion, thrown bool, ex
 func (in *Interp) evalTry(s *Try, c *Ctx) Completion {
 	b, thrown, exc := in.protect(func() Completion { return in.evalStmt(s.Body, c, nil) })
 	cc := b
+	var ranCatch *Ctx
 	if thrown && s.Catch != nil {
 		// production Catch: catch (Identifier) Block
 		catchEnv := NewDeclEnv(c.Lex)
 		catchEnv.CreateMutableBinding(in, s.Param, false)
 		catchEnv.SetMutableBinding(in, s.Param, exc, false)
 		cctx := &Ctx{Lex: catchEnv, Var: c.Var, This: c.This}
+		ranCatch = cctx
 		cc, thrown, exc = in.protect(func() Completion { return in.evalStmt(s.Catch, cctx, nil) })
 	}
 	if s.Finally != nil {
-		f := in.evalStmt(s.Finally, c, nil)
+		fctx := c
+		if ranCatch != nil && in.Flags&AltFinallyInCatchEnv != 0 {
+			fctx = ranCatch
+		}
+		f := in.evalStmt(s.Finally, fctx, nil)
 		if f.Type != CNormal {
 			return f
 		}
